@@ -1,8 +1,8 @@
 (** C04 correspondence interface.
     A case is a history.  The implementation's output lists, per operation, the result it
     observed (collections by iterating them at the time they were produced; transients by the
-    identity of the object), then per result whether re-reading it after the whole history
-    gave the same observation, then the final contents of every transient.
+    identity of the object), then whether re-reading EVERY result after the whole history
+    gave the same observation again, then the final contents of every transient.
     [spec_ok] checks the history step by step against Spec.sstep; [model] runs the model of
     the code over the list instance of the libraries. *)
 From Coq Require Import List Bool ZArith NArith.
@@ -12,14 +12,14 @@ From Verif Require Export Common.ListX C04.Val C04.Lib C04.Syntax C04.Model C04.
 Inductive case := CHist (ops : list op).
 
 Inductive out :=
-| OOut (obs : list sres) (stable : list bool) (cells : list coll)
+| OOut (obs : list sres) (stable : bool) (cells : list coll)
 | OFail (n : N).                         (* the harness could not run the case (timeout, hang, crash) *)
 
 Definition spec_ok (c : case) (o : out) : bool :=
   match c, o with
   | CHist ops, OOut obs stable cells =>
       match srun ops [] obs [] with
-      | Some h => Nat.eqb (length stable) (length obs) && forallb (fun b => b) stable && cells_ok h cells
+      | Some h => stable && cells_ok h cells
       | None => false
       end
   | _, OFail _ => false
@@ -29,7 +29,7 @@ Definition model (c : case) : out :=
   match c with
   | CHist ops =>
       let st := irun ListLibs ops in
-      OOut (abs_slots ListLibs st) (map (fun _ => true) (slots st))
+      OOut (abs_slots ListLibs st) true
            (map (fun c => cell_coll (abs_cell ListLibs c)) (heap st))
   end.
 
@@ -44,7 +44,7 @@ Definition obs_eqb (a b : sres) : bool :=
 Definition out_eqb (a b : out) : bool :=
   match a, b with
   | OOut o1 s1 c1, OOut o2 s2 c2 =>
-      list_eqb obs_eqb o1 o2 && list_eqb Bool.eqb s1 s2 && list_eqb coll_equiv c1 c2
+      list_eqb obs_eqb o1 o2 && Bool.eqb s1 s2 && list_eqb coll_equiv c1 c2
   | OFail x, OFail y => N.eqb x y
   | _, _ => false
   end.
